@@ -259,6 +259,7 @@ def run_application_events(sh):
     for config_class in (ApplicationConfig, DefaultApplicationConfig):
         for plan_ in ([(0, False), (5, False), (0, False), (-1, False)], [(5, False), (5, True), (0, False)], [(0, False)], []):
             log = []
+            payloads = []
             cfg = config_class("app", "1.0")
             cfg.set_catch_exceptions(False)
             cfg.set_terminate_after_run(False)
@@ -277,6 +278,14 @@ def run_application_events(sh):
                 for k, (pr, stops) in enumerate(plan_):
                     def listener(event, name, d, ev=ev, k=k, stops=stops):
                         log.append((ev, k))
+                        # what a listener is there for: the payload of the event it is called with
+                        if ev == PRE_HANDLE:
+                            payload = (event.io.is_quiet(), event.args.arguments(True), event.command.name, event.is_handled(), event.status_code)
+                        elif ev == PRE_RESOLVE:
+                            payload = (list(event.raw_args.tokens), event.application.config.name, event.resolved_command)
+                        else:
+                            payload = (event.config.name,)
+                        payloads.append((ev, payload))
                         if stops:
                             event.stop_propagation()
 
@@ -300,6 +309,12 @@ def run_application_events(sh):
                 continue
             sh.count("application_event_dispatches", 3)
             got_run = [x for x in log if x[0] != "handler"]
+            for ev, payload in payloads:
+                ok = {PRE_HANDLE: payload[1:] == ({}, "run", False, 0) if ev == PRE_HANDLE else True,
+                      PRE_RESOLVE: payload[:2] == (["run"], "app") if ev == PRE_RESOLVE else True, CONFIG: payload == ("app",) if ev == CONFIG else True}[ev]
+                if not ok:
+                    sh.violate("event-payload", record, "a %s listener saw the payload %r" % (ev, payload))
+                    break
             if built != want[CONFIG]:
                 sh.violate("dispatch-order", record, "CONFIG listeners called %r, expected %r" % (built, want[CONFIG]))
             if got_run != want[PRE_RESOLVE] + want[PRE_HANDLE]:
